@@ -246,3 +246,387 @@ example :
         (s.mem .seq).length = 2)) = some true := by decide
 
 end Woodpile.Props.C13
+
+namespace Woodpile.Props.C13
+open Woodpile.Abt
+
+/-! ## Completed calls (track abt2, claim-audit gap 7)
+
+The theorems above speak of *published* history entries.  The ones below tie the history to
+*calls*: a call that was accepted really is in the history at an index its caller's view covers
+when it returns; a call that was ignored has seen a strictly newer published pair; and a
+snapshot whose start has seen an update's return reflects it.
+
+Two forms.  (1) State form, at the program counters `aUnlock r` (decided, about to drop the
+guard) and `retBool true`.  (2) Call form: `SC.GReachable` / `RA.GReachable` run the very same
+`step` function next to pure bookkeeping (`Mach.gnext`: a step counter, the operation each
+thread has in progress, and one `CallRec` per completed call with the caller's view of
+`sequence` at the start and at the return, the step numbers of its start and of its last step,
+and its result).  `*_bookkeeping_exact` shows the bookkeeping neither removes nor adds machine
+behaviours, so the call-form theorems quantify over every schedule / reads-from choice / number
+of threads and operations, exactly like `Reachable`. -/
+
+/-! ### Sequentially consistent machine -/
+
+/-- Accept direction, one step: at the comparison in `advance_once`, an argument whose base time
+is not older than the most recently published one is NOT ignored: the call proceeds to the
+slot stores when the pair is valid (and to the panic path when it is not), memory and history
+untouched by the comparison itself.  (While the lock is held only the holder appends to `hist`
+- `sc_hist_is_accepted_updates` + `sc_invariant.lock` - so "most recently published when it
+compares" is "most recently published when it took the lock".) -/
+theorem sc_fresh_update_accepted {chk : Nat → Nat → Bool} {v0 : Nat} (h0 : chk 0 v0 = true) {s s' : SC.State}
+    (h : SC.Reachable chk v0 s) (t ts : Nat) (hpc : (s.thr t).pc = .aB)
+    (cur : Nat × Nat) (hcur : s.hist.getLast? = some cur) (hfresh : cur.1 ≤ (s.thr t).ub)
+    (hs : SC.step chk s (.run t ts) = some s') :
+    (s'.thr t).pc = (if chk (s.thr t).ub (s.thr t).uv then .aStB else .aUnlockPanic) ∧
+    s'.mem = s.mem ∧ s'.hist = s.hist :=
+  SC.fresh_accepted (sc_invariant h0 h) t ts hpc cur hcur hfresh hs
+
+/-- ... and from there the call's remaining four steps (two slot stores, the sequence store,
+the guard drop) are enabled in ANY state; taking them returns `true` with exactly the call's
+pair appended to the history and the lock released. -/
+theorem sc_accepted_update_completes (chk : Nat → Nat → Bool) (s : SC.State) (t : Nat)
+    (hpc : (s.thr t).pc = .aStB) :
+    ∃ s', SC.run chk s (List.replicate 4 (.run t 0)) = some s' ∧ (s'.thr t).pc = .retBool true ∧
+      s'.hist = s.hist ++ [((s.thr t).ub, (s.thr t).uv)] ∧ s'.held = none :=
+  SC.accepted_completes chk s t hpc
+
+/-- A call that returned `true` (or has decided to): its argument pair is in the history, at an
+index not beyond the number of updates published so far. -/
+theorem sc_update_completed {chk : Nat → Nat → Bool} {v0 : Nat} (h0 : chk 0 v0 = true) {s : SC.State}
+    (h : SC.Reachable chk v0 s) (t : Nat) (hpc : (s.thr t).pc = .retBool true ∨ (s.thr t).pc = .aUnlock true) :
+    ∃ j, j ≤ s.mem .seq ∧ s.hist[j]? = some ((s.thr t).ub, (s.thr t).uv) := by
+  have := (SC.ok_reachable h0 h).2 t
+  rcases hpc with hpc | hpc <;> simpa [UInv, hpc] using this
+
+/-- A call that was ignored (it is about to drop the guard and return `false` from
+`advance_once`): a pair with a strictly newer base time is already published. -/
+theorem sc_update_ignored_covered {chk : Nat → Nat → Bool} {v0 : Nat} (h0 : chk 0 v0 = true) {s : SC.State}
+    (h : SC.Reachable chk v0 s) (t : Nat) (hpc : (s.thr t).pc = .aUnlock false) :
+    ∃ j p, j ≤ s.mem .seq ∧ s.hist[j]? = some p ∧ (s.thr t).ub < p.1 := by
+  have := (SC.ok_reachable h0 h).2 t
+  simpa [UInv, hpc] using this
+
+/-- The bookkeeping layer is exact: the machine states it reaches are precisely the reachable ones. -/
+theorem sc_bookkeeping_exact (chk : Nat → Nat → Bool) (v0 : Nat) (s : SC.State) :
+    SC.Reachable chk v0 s ↔ ∃ g : (SC.mach chk).GState, SC.GReachable chk v0 g ∧ g.s = s :=
+  SC.greachable_iff chk v0 s
+
+/-- Every completed call, on every execution (`Mach.RecOK`, with `hist` the history now - it
+only ever grows): `vStart ≤ vRet`, started before it ended, and
+* `snapshot` returned a pair `hist[k]` with `vStart ≤ k ≤ vRet`, and never panicked;
+* `update(b, v)` that returned: `∃ j ≤ vRet`, `hist[j]` is its own pair `(b, v)` if
+  `advance_once` said `true`, a pair with base time `> b` if it said `false` (so: every pair
+  up to `vRet` having base ≤ `b` forces acceptance - the accept direction, call form);
+* `try_update(b, v) = true`: `hist[j] = (b, v)` for some `j ≤ vRet`;
+* a call that panicked was given a pair that fails the voucher check. -/
+theorem sc_calls_sound {chk : Nat → Nat → Bool} {v0 : Nat} (h0 : chk 0 v0 = true) {g : (SC.mach chk).GState}
+    (h : SC.GReachable chk v0 g) (R : CallRec) (hR : R ∈ g.done) :
+    Mach.RecOK chk g.s.hist R :=
+  ((SC.ginv_reachable h0 h).recs R hR).1
+
+/-- On SC "completed before" is real time: if `U`'s last step precedes `S`'s start label,
+everything `U` had seen published, `S` sees at its start. -/
+theorem sc_real_time_order {chk : Nat → Nat → Bool} {v0 : Nat} (h0 : chk 0 v0 = true) {g : (SC.mach chk).GState}
+    (h : SC.GReachable chk v0 g) (U S : CallRec) (hU : U ∈ g.done) (hS : S ∈ g.done)
+    (hlt : U.tRet < S.tStart) : U.vRet ≤ S.vStart :=
+  (SC.ginv_reachable h0 h).pairs U hU S hS (Or.inr trivial) hlt
+
+/-- END TO END (SC): a snapshot is at least as recent as every update that completed before it
+began.  `U` is an `update(b, v)` call that returned (it did not panic, i.e. its voucher was
+valid or it was stale), or a `try_update(b, v)` that returned `true`; `S` is a `snapshot` call,
+by any thread, whose `.start` came after `U`'s last step; then `S` returned a base time ≥ `b`. -/
+theorem sc_completed_update_visible {chk : Nat → Nat → Bool} {v0 : Nat} (h0 : chk 0 v0 = true)
+    {g : (SC.mach chk).GState} (h : SC.GReachable chk v0 g) (U S : CallRec) (hU : U ∈ g.done) (hS : S ∈ g.done)
+    (b v sb sv : Nat)
+    (hUop : (U.op = .update b v ∧ ∃ r, U.res = .bool r) ∨ (U.op = .tryUpdate b v ∧ U.res = .bool true))
+    (hSop : S.op = .snapshot) (hSres : S.res = .snap sb sv) (hlt : U.tRet < S.tStart) : b ≤ sb :=
+  Mach.update_then_snapshot (SC.laws chk) (SC.ginv_reachable h0 h) U S hU hS b v sb sv hUop hSop hSres
+    (sc_real_time_order h0 h U S hU hS hlt)
+
+end Woodpile.Props.C13
+
+namespace Woodpile.Props.C13
+open Woodpile.Abt
+
+/-! ### Release/acquire view machine
+
+There is no global time on this machine: "call `U` returned before call `S` began" is
+happens-before, i.e. view inclusion on `sequence` - `U.vRet ≤ S.vStart`, the view of `U`'s
+caller when `U` returned is included in the view of `S`'s caller when `S` began.  That holds
+when both are calls of one thread in program order (`ra_program_order`), and whenever the
+views were transferred by synchronisation: every step only grows views
+(`ra_view_monotone`, `ra_view_monotone_run`), a `sync t u` step - a join, a channel, any
+release/acquire pair outside the object - makes `t`'s view include `u`'s
+(`ra_sync_transfers_view`), and so do the writer mutex's guard drop / acquisition. -/
+
+/-- Accept direction, one step (as `sc_fresh_update_accepted`), whichever message of the current
+slot's base word the acquire load is allowed to read. -/
+theorem ra_fresh_update_accepted {chk : Nat → Nat → Bool} {v0 : Nat} (h0 : chk 0 v0 = true) {s s' : RA.State}
+    (h : RA.Reachable chk v0 s) (t ts : Nat) (hpc : (s.thr t).loc.pc = .aB)
+    (cur : Nat × Nat) (hcur : s.hist.getLast? = some cur) (hfresh : cur.1 ≤ (s.thr t).loc.ub)
+    (hs : RA.step chk s (.run t ts) = some s') :
+    (s'.thr t).loc.pc = (if chk (s.thr t).loc.ub (s.thr t).loc.uv then .aStB else .aUnlockPanic) ∧
+    s'.mem = s.mem ∧ s'.hist = s.hist :=
+  RA.fresh_accepted (ra_invariant h0 h) t ts hpc cur hcur hfresh hs
+
+/-- ... and from there the call's remaining four steps are enabled in ANY state and return
+`true` with exactly the call's pair appended to the history and the lock released. -/
+theorem ra_accepted_update_completes (chk : Nat → Nat → Bool) (s : RA.State) (t : Nat)
+    (hpc : (s.thr t).loc.pc = .aStB) :
+    ∃ s', RA.run chk s (List.replicate 4 (.run t 0)) = some s' ∧ (s'.thr t).loc.pc = .retBool true ∧
+      s'.hist = s.hist ++ [((s.thr t).loc.ub, (s.thr t).loc.uv)] ∧ s'.held = none :=
+  RA.accepted_completes chk s t hpc
+
+/-- A completed accepted call: its pair is in the history at an index covered by the thread's
+own view of `sequence` at return (so everything that later includes this view sees it). -/
+theorem ra_update_completed {chk : Nat → Nat → Bool} {v0 : Nat} (h0 : chk 0 v0 = true) {s : RA.State}
+    (h : RA.Reachable chk v0 s) (t : Nat)
+    (hpc : (s.thr t).loc.pc = .retBool true ∨ (s.thr t).loc.pc = .aUnlock true) :
+    ∃ j, j ≤ (s.thr t).view .seq ∧ s.hist[j]? = some ((s.thr t).loc.ub, (s.thr t).loc.uv) := by
+  have := (RA.ok_reachable h0 h).2 t
+  rcases hpc with hpc | hpc <;> simpa [UInv, hpc] using this
+
+/-- An ignored call: a pair with a strictly newer base time is published at an index covered by
+the thread's own view of `sequence`. -/
+theorem ra_update_ignored_covered {chk : Nat → Nat → Bool} {v0 : Nat} (h0 : chk 0 v0 = true) {s : RA.State}
+    (h : RA.Reachable chk v0 s) (t : Nat) (hpc : (s.thr t).loc.pc = .aUnlock false) :
+    ∃ j p, j ≤ (s.thr t).view .seq ∧ s.hist[j]? = some p ∧ (s.thr t).loc.ub < p.1 := by
+  have := (RA.ok_reachable h0 h).2 t
+  simpa [UInv, hpc] using this
+
+/-- Every step only grows every thread's view of every location. -/
+theorem ra_view_monotone {chk : Nat → Nat → Bool} {v0 : Nat} (h0 : chk 0 v0 = true) {s s' : RA.State}
+    (h : RA.Reachable chk v0 s) (l : Label) (hs : RA.step chk s l = some s') (t : Nat) (loc : Loc) :
+    (s.thr t).view loc ≤ (s'.thr t).view loc :=
+  (RA.step_frame (ra_invariant h0 h) l hs).views t loc
+
+theorem ra_view_monotone_run {chk : Nat → Nat → Bool} {v0 : Nat} (h0 : chk 0 v0 = true) {s s' : RA.State}
+    (h : RA.Reachable chk v0 s) (ls : List Label) (hs : RA.run chk s ls = some s') (t : Nat) (loc : Loc) :
+    (s.thr t).view loc ≤ (s'.thr t).view loc :=
+  RA.views_run ls s s' (ra_invariant h0 h) hs t loc
+
+/-- `sync t u`: afterwards `t`'s view includes `u`'s. -/
+theorem ra_sync_transfers_view {chk : Nat → Nat → Bool} {v0 : Nat} (h0 : chk 0 v0 = true) {s s' : RA.State}
+    (h : RA.Reachable chk v0 s) (t u : Nat) (hs : RA.step chk s (.sync t u) = some s') (loc : Loc) :
+    (s.thr u).view loc ≤ (s'.thr t).view loc :=
+  ((RA.step_frame (ra_invariant h0 h) _ hs).sync t u rfl).2.2 loc
+
+/-- The bookkeeping layer is exact on the view machine too. -/
+theorem ra_bookkeeping_exact (chk : Nat → Nat → Bool) (v0 : Nat) (s : RA.State) :
+    RA.Reachable chk v0 s ↔ ∃ g : (RA.mach chk).GState, RA.GReachable chk v0 g ∧ g.s = s :=
+  RA.greachable_iff chk v0 s
+
+/-- Every completed call on every execution of the view machine (see `sc_calls_sound`; `vStart`,
+`vRet` are the caller's views of `sequence`). -/
+theorem ra_calls_sound {chk : Nat → Nat → Bool} {v0 : Nat} (h0 : chk 0 v0 = true) {g : (RA.mach chk).GState}
+    (h : RA.GReachable chk v0 g) (R : CallRec) (hR : R ∈ g.done) :
+    Mach.RecOK chk g.s.hist R :=
+  ((RA.ginv_reachable h0 h).recs R hR).1
+
+/-- A completed call's view at return stays included in its thread's view for ever. -/
+theorem ra_return_view_kept {chk : Nat → Nat → Bool} {v0 : Nat} (h0 : chk 0 v0 = true) {g : (RA.mach chk).GState}
+    (h : RA.GReachable chk v0 g) (R : CallRec) (hR : R ∈ g.done) :
+    R.vRet ≤ (g.s.thr R.tid).view .seq :=
+  ((RA.ginv_reachable h0 h).recs R hR).2.2 R.tid (Or.inl rfl)
+
+/-- Program order: for two calls of one thread, the earlier one's view at return is included
+in the later one's view at its start. -/
+theorem ra_program_order {chk : Nat → Nat → Bool} {v0 : Nat} (h0 : chk 0 v0 = true) {g : (RA.mach chk).GState}
+    (h : RA.GReachable chk v0 g) (U S : CallRec) (hU : U ∈ g.done) (hS : S ∈ g.done)
+    (hsame : U.tid = S.tid) (hlt : U.tRet < S.tStart) : U.vRet ≤ S.vStart :=
+  (RA.ginv_reachable h0 h).pairs U hU S hS (Or.inl hsame) hlt
+
+/-- END TO END (release/acquire): a snapshot is at least as recent as every update that
+completed before it began, in happens-before order.  `U` is an `update(b, v)` call that
+returned (it did not panic: its voucher was valid, or it was stale), or a `try_update(b, v)`
+that returned `true`; `S` is a `snapshot` call whose caller's view of `sequence` at its start
+includes `U`'s caller's view at `U`'s return; then `S` returned a base time ≥ `b`. -/
+theorem ra_update_then_snapshot {chk : Nat → Nat → Bool} {v0 : Nat} (h0 : chk 0 v0 = true)
+    {g : (RA.mach chk).GState} (h : RA.GReachable chk v0 g) (U S : CallRec) (hU : U ∈ g.done) (hS : S ∈ g.done)
+    (b v sb sv : Nat)
+    (hUop : (U.op = .update b v ∧ ∃ r, U.res = .bool r) ∨ (U.op = .tryUpdate b v ∧ U.res = .bool true))
+    (hSop : S.op = .snapshot) (hSres : S.res = .snap sb sv) (hb : U.vRet ≤ S.vStart) : b ≤ sb :=
+  Mach.update_then_snapshot (RA.laws chk) (RA.ginv_reachable h0 h) U S hU hS b v sb sv hUop hSop hSres hb
+
+/-- ... in particular for a thread's own earlier update (program order). -/
+theorem ra_own_update_visible {chk : Nat → Nat → Bool} {v0 : Nat} (h0 : chk 0 v0 = true)
+    {g : (RA.mach chk).GState} (h : RA.GReachable chk v0 g) (U S : CallRec) (hU : U ∈ g.done) (hS : S ∈ g.done)
+    (b v sb sv : Nat)
+    (hUop : (U.op = .update b v ∧ ∃ r, U.res = .bool r) ∨ (U.op = .tryUpdate b v ∧ U.res = .bool true))
+    (hSop : S.op = .snapshot) (hSres : S.res = .snap sb sv) (hsame : U.tid = S.tid) (hlt : U.tRet < S.tStart) :
+    b ≤ sb :=
+  ra_update_then_snapshot h0 h U S hU hS b v sb sv hUop hSop hSres (ra_program_order h0 h U S hU hS hsame hlt)
+
+end Woodpile.Props.C13
+
+namespace Woodpile.Props.C13
+open Woodpile.Abt
+
+/-! Non-vacuity (completed calls, RA): thread 0 completes `update (5, 105)`; thread 2's stale
+`try_update (3, 103)` is ignored; thread 1 synchronises with thread 0 (`sync 1 0`) and then
+snapshots: its start view (1) includes the update's return view (1), the hypotheses of
+`ra_update_then_snapshot` hold, and it returns `(5, 105)`; thread 3, which never synchronised,
+has start view 0, is NOT covered by the theorem and legitimately returns the epoch pair;
+thread 0's own later snapshot is covered through program order (`ra_own_update_visible`). -/
+example :
+    ((RA.mach (fun b v => v == b + 100)).grun ((RA.mach (fun b v => v == b + 100)).ginit (RA.init 100))
+      [.start 0 (.update 5 105), .run 0 0, .run 0 0, .run 0 0, .run 0 0, .run 0 0, .run 0 0, .run 0 0, .run 0 0,
+       .start 2 (.tryUpdate 3 103), .run 2 0, .run 2 1, .run 2 1, .run 2 1, .run 2 0,
+       .sync 1 0, .start 1 .snapshot, .run 1 1, .run 1 1, .run 1 1, .run 1 1,
+       .start 3 .snapshot, .run 3 0, .run 3 0, .run 3 0, .run 3 0,
+       .start 0 .snapshot, .run 0 1, .run 0 1, .run 0 1, .run 0 1]).map
+      (fun g => decide (g.done =
+        [⟨0, .snapshot, 1, 1, 26, 30, .snap 5 105⟩, ⟨3, .snapshot, 0, 0, 21, 25, .snap 0 100⟩,
+         ⟨1, .snapshot, 1, 1, 16, 20, .snap 5 105⟩, ⟨2, .tryUpdate 3 103, 0, 1, 9, 14, .bool false⟩,
+         ⟨0, .update 5 105, 0, 1, 0, 8, .bool true⟩] ∧ g.s.hist = [(0, 100), (5, 105)])) = some true := by
+  decide
+
+/-- Non-vacuity (completed calls, SC): the same labels on the SC machine; every snapshot that
+started after the update's last step (step 8) returns `(5, 105)` (`sc_completed_update_visible`). -/
+example :
+    ((SC.mach (fun b v => v == b + 100)).grun ((SC.mach (fun b v => v == b + 100)).ginit (SC.init 100))
+      [.start 0 (.update 5 105), .run 0 0, .run 0 0, .run 0 0, .run 0 0, .run 0 0, .run 0 0, .run 0 0, .run 0 0,
+       .start 2 (.tryUpdate 3 103), .run 2 0, .run 2 0, .run 2 0, .run 2 0, .run 2 0,
+       .start 1 .snapshot, .run 1 0, .run 1 0, .run 1 0, .run 1 0]).map
+      (fun g => decide (g.done =
+        [⟨1, .snapshot, 1, 1, 15, 19, .snap 5 105⟩, ⟨2, .tryUpdate 3 103, 1, 1, 9, 14, .bool false⟩,
+         ⟨0, .update 5 105, 0, 1, 0, 8, .bool true⟩] ∧ g.s.hist = [(0, 100), (5, 105)])) = some true := by
+  decide
+
+/-- The hypotheses of `*_fresh_update_accepted` / `*_update_ignored_covered` / `*_update_completed`
+are satisfiable: a fresh valid update at `aB`; an ignored one at `aUnlock false`; a completed one. -/
+example :
+    (RA.run (fun b v => v == b + 100) (RA.init 100)
+      [.start 0 (.update 5 105), .run 0 0, .run 0 0, .run 0 0]).map
+      (fun s => decide ((s.thr 0).loc.pc = .aB ∧ s.hist.getLast? = some (0, 100) ∧ 0 ≤ (s.thr 0).loc.ub)) = some true := by
+  decide
+example :
+    (RA.run (fun b v => v == b + 100) (RA.init 100)
+      [.start 0 (.update 5 105), .run 0 0, .run 0 0, .run 0 0, .run 0 0, .run 0 0, .run 0 0, .run 0 0, .run 0 0,
+       .start 2 (.tryUpdate 3 103), .run 2 0, .run 2 1, .run 2 1, .run 2 1]).map
+      (fun s => decide ((s.thr 2).loc.pc = .aUnlock false ∧ (s.thr 0).loc.pc = .retBool true ∧
+        (s.thr 0).view .seq = 1)) = some true := by
+  decide
+example :
+    (SC.run (fun b v => v == b + 100) (SC.init 100)
+      [.start 0 (.update 5 105), .run 0 0, .run 0 0, .run 0 0, .run 0 0]).map
+      (fun s => decide ((s.thr 0).pc = .aStB)) = some true := by
+  decide
+
+end Woodpile.Props.C13
+
+namespace Woodpile.Props.C13
+open Woodpile.Abt
+
+/-- Synchronises-with, call form.  `U` is a call its thread had completed when thread `t`
+synchronised with that thread (`sync t U.tid`, step number `g0.clock`); `S` is any call of `t`
+that starts after that step, in any continuation `ls` of the execution: then `S`'s start view
+includes `U`'s return view. -/
+theorem ra_sync_order {chk : Nat → Nat → Bool} {v0 : Nat} (h0 : chk 0 v0 = true) {g0 g1 g2 : (RA.mach chk).GState}
+    (h : RA.GReachable chk v0 g0) (U : CallRec) (hU : U ∈ g0.done) (t : Nat)
+    (hsync : (RA.mach chk).gstep g0 (.sync t U.tid) = some g1) (ls : List Label)
+    (hrun : (RA.mach chk).grun g1 ls = some g2)
+    (S : CallRec) (hS : S ∈ g2.done) (hSt : S.tid = t) (hlater : g0.clock < S.tStart) : U.vRet ≤ S.vStart :=
+  Mach.sync_order (RA.laws chk) (RA.ginv_reachable h0 h) U hU t hsync ls hrun S hS hSt hlater
+
+/-- END TO END across threads: thread `U.tid` completed `update(b, v)` (or `try_update(b, v) = true`),
+then thread `t` synchronised with it (join, channel, …), then `t` called `snapshot`: that
+snapshot returns a base time ≥ `b`. -/
+theorem ra_synced_update_visible {chk : Nat → Nat → Bool} {v0 : Nat} (h0 : chk 0 v0 = true)
+    {g0 g1 g2 : (RA.mach chk).GState} (h : RA.GReachable chk v0 g0) (U : CallRec) (hU : U ∈ g0.done) (t : Nat)
+    (hsync : (RA.mach chk).gstep g0 (.sync t U.tid) = some g1) (ls : List Label)
+    (hrun : (RA.mach chk).grun g1 ls = some g2)
+    (S : CallRec) (hS : S ∈ g2.done) (hSt : S.tid = t) (hlater : g0.clock < S.tStart) (b v sb sv : Nat)
+    (hUop : (U.op = .update b v ∧ ∃ r, U.res = .bool r) ∨ (U.op = .tryUpdate b v ∧ U.res = .bool true))
+    (hSop : S.op = .snapshot) (hSres : S.res = .snap sb sv) : b ≤ sb := by
+  have hg2 : RA.GReachable chk v0 g2 := by
+    obtain ⟨l0, hl0⟩ := h
+    refine ⟨l0 ++ (.sync t U.tid :: ls), ?_⟩
+    rw [Mach.grun_append, hl0]
+    simp only [Mach.grun, hsync]
+    exact hrun
+  have hU2 : U ∈ g2.done :=
+    Mach.done_mono _ ls g1 g2 hrun U (Mach.done_mono_step _ g0 g1 _ hsync U hU)
+  exact ra_update_then_snapshot h0 hg2 U S hU2 hS b v sb sv hUop hSop hSres
+    (ra_sync_order h0 h U hU t hsync ls hrun S hS hSt hlater)
+
+end Woodpile.Props.C13
+
+namespace Woodpile.Props.C13
+open Woodpile.Abt
+
+/-! Non-vacuity of `ra_sync_order` / `ra_synced_update_visible`: in the execution of the example
+above, `g0` = the state after the first 15 labels has the completed `update (5, 105)` of thread 0
+in `done` and `clock = 15`; the next label is `sync 1 0`; thread 1's snapshot starts at step
+16 > 15 (and, in that example, returns `(5, 105)`). -/
+example :
+    ((RA.mach (fun b v => v == b + 100)).grun ((RA.mach (fun b v => v == b + 100)).ginit (RA.init 100))
+      [.start 0 (.update 5 105), .run 0 0, .run 0 0, .run 0 0, .run 0 0, .run 0 0, .run 0 0, .run 0 0, .run 0 0,
+       .start 2 (.tryUpdate 3 103), .run 2 0, .run 2 1, .run 2 1, .run 2 1, .run 2 0]).map
+      (fun g0 => decide ((⟨0, .update 5 105, 0, 1, 0, 8, .bool true⟩ : CallRec) ∈ g0.done ∧ g0.clock = 15 ∧
+        (((RA.mach (fun b v => v == b + 100)).grun g0
+            [.sync 1 0, .start 1 .snapshot, .run 1 1, .run 1 1, .run 1 1, .run 1 1]).map
+          (fun g2 => decide ((⟨1, .snapshot, 1, 1, 16, 20, .snap 5 105⟩ : CallRec) ∈ g2.done))) = some true))
+      = some true := by decide
+
+end Woodpile.Props.C13
+
+namespace Woodpile.Props.C13
+open Woodpile.Abt
+
+/-- The argument pair `(ub, uv)` of a call is fixed when the call starts: no step of any of the
+three programs changes it, whatever result is fed (so the pair appended by the sequence store,
+`*_hist_is_accepted_updates`, is the pair the call was given). -/
+theorem call_arguments_fixed (chk : Nat → Nat → Bool) (th : Local) :
+    (∀ val, (th.feedLoad chk val).ub = th.ub ∧ (th.feedLoad chk val).uv = th.uv) ∧
+    (∀ r, (th.feedLock r).ub = th.ub ∧ (th.feedLock r).uv = th.uv) ∧
+    (th.feedUnit.ub = th.ub ∧ th.feedUnit.uv = th.uv) ∧
+    (∀ b v, (th.start (.update b v)).ub = b ∧ (th.start (.update b v)).uv = v ∧
+      (th.start (.tryUpdate b v)).ub = b ∧ (th.start (.tryUpdate b v)).uv = v) :=
+  ⟨fun val => RA.feedLoad_args chk th val, fun r => RA.feedLock_args th r, RA.feedUnit_args th,
+   fun _ _ => ⟨rfl, rfl, rfl, rfl⟩⟩
+
+end Woodpile.Props.C13
+
+namespace Woodpile.Props.C13
+open Woodpile.Abt
+
+/-- Only the lock holder publishes: a step that changes the history is a step of the thread
+holding the writer mutex.  Hence from the moment a writer takes the lock until it drops the
+guard nobody else appends, and "the most recently published pair when it compares" in
+`*_fresh_update_accepted` / `*_stale_update_ignored` is "the most recently published pair when
+it took the lock". -/
+theorem sc_only_holder_publishes {chk : Nat → Nat → Bool} {v0 : Nat} (h0 : chk 0 v0 = true) {s s' : SC.State}
+    (h : SC.Reachable chk v0 s) (l : Label) (hs : SC.step chk s l = some s') (hne : s'.hist ≠ s.hist) :
+    ∃ t ts, l = .run t ts ∧ s.held = some t := by
+  rcases SC.hist_step chk s s' l hs with he | ⟨t, ts, hl, hpc, _⟩
+  · exact absurd he hne
+  · exact ⟨t, ts, hl, ((sc_invariant h0 h).lock t).1 (by simp [hpc, Pc.inCS])⟩
+
+theorem ra_only_holder_publishes {chk : Nat → Nat → Bool} {v0 : Nat} (h0 : chk 0 v0 = true) {s s' : RA.State}
+    (h : RA.Reachable chk v0 s) (l : Label) (hs : RA.step chk s l = some s') (hne : s'.hist ≠ s.hist) :
+    ∃ t ts, l = .run t ts ∧ s.held = some t := by
+  rcases RA.hist_step chk s s' l hs with he | ⟨t, ts, hl, hpc, _⟩
+  · exact absurd he hne
+  · exact ⟨t, ts, hl, ((ra_invariant h0 h).t t).lock.1 (by simp [hpc, Pc.inCS])⟩
+
+end Woodpile.Props.C13
+
+namespace Woodpile.Props.C13
+open Woodpile.Abt
+
+/-- A completed `update` / `try_update` call that was given a VALID pair returned normally (a
+`Bool`; it did not panic) - so "`U` returned" in the end-to-end theorems is implied by "`U`
+completed and its voucher was valid". -/
+theorem valid_update_returns {chk : Nat → Nat → Bool} {hist : List (Nat × Nat)} {R : CallRec}
+    (hR : Mach.RecOK chk hist R) (b v : Nat) (hop : R.op = .update b v ∨ R.op = .tryUpdate b v)
+    (hv : chk b v = true) : ∃ r, R.res = .bool r := by
+  obtain ⟨_, _, h⟩ := hR
+  rcases hop with hop | hop <;> rw [hop] at h <;> cases hres : R.res <;> rw [hres] at h
+  all_goals first
+    | exact ⟨_, rfl⟩
+    | (simp at h; done)
+    | (simp only [hv] at h; cases h)
+
+end Woodpile.Props.C13
